@@ -471,6 +471,10 @@ func (s *reprovider) Reprovide(ctx context.Context) error {
 	if s.throughputCallback != nil && s.throughputMinimumProvides < batchSize {
 		batchSize = s.throughputMinimumProvides
 	}
+	// A batch holds at least one key: with a limit of 0 (MaxBatchSize(0) or
+	// ThroughputReport(f, 0)) the key channel would never be read and the loop
+	// below would never terminate.
+	batchSize = max(batchSize, 1)
 
 	cids := make(map[cid.Cid]struct{}, min(batchSize, 1024))
 	allCidsProcessed := false
